@@ -54,6 +54,7 @@ type call struct {
 	Fault   string   `json:"fault,omitempty"`
 	Err     string   `json:"err,omitempty"`
 	SkipNod bool     `json:"-"`
+	Token   string   `json:"-"`
 }
 
 // describe names a call by what it carries; within one sync attempt every call has a distinct
@@ -71,6 +72,7 @@ func describe(method string, args any) call {
 	case "Catalog.Register":
 		req := args.(*structs.RegisterRequest)
 		c.SkipNod = req.SkipNodeUpdate
+		c.Token = req.Token
 		if req.Check != nil {
 			c.Chks = append(c.Chks, string(req.Check.CheckID))
 		}
@@ -78,9 +80,6 @@ func describe(method string, args any) call {
 			c.Chks = append(c.Chks, string(k.CheckID))
 		}
 		sort.Strings(c.Chks)
-		switch {
-		case req.Service != nil && len(c.Chks) > 0 && len(req.Checks) == 0 && req.Check != nil && false:
-		}
 		// a service registration carries piggybacked checks; a check registration carries its service
 		// for context. The agent's two code paths are told apart by what is being synced: syncCheck
 		// always sends exactly one check in Check and never uses Checks; syncService sends the
@@ -91,6 +90,9 @@ func describe(method string, args any) call {
 		case req.Service != nil:
 			c.Svc = req.Service.ID
 			c.Desc, c.Class = "register:svc:"+req.Service.ID, "register-service"
+			if len(c.Chks) > 0 {
+				c.Desc += "+chk:" + strings.Join(c.Chks, ",")
+			}
 		default:
 			c.Desc, c.Class = "register:chk:"+strings.Join(c.Chks, ","), "register-check"
 		}
@@ -127,7 +129,7 @@ type catalog struct {
 	readOK  int // successful read RPCs in this attempt
 	onRead  func()             // called when the read phase of a full sync completed
 	onCall  func(c *call)      // observation hook (after the call was decided)
-	svcOnly map[string]bool    // scratch
+	refine  func(c *call)      // lets the model tell a check sync that carries its service from a service sync
 }
 
 func newCatalog(wire bool) *catalog {
@@ -199,6 +201,9 @@ func (c *catalog) faultError(k string, cl *call) error {
 
 func (c *catalog) RPC(_ context.Context, method string, args any, reply any) error {
 	cl := describe(method, args)
+	if c.refine != nil {
+		c.refine(&cl)
+	}
 	for i, f := range c.faults {
 		if c.fired[i] || f.Desc != cl.Desc {
 			continue
